@@ -7,6 +7,7 @@ TRUSTED = [
     "tools/extract (go/ast): redirect-sink, pending-destination and destination-read tables; harvested cookie / parameter names",
     "model of net/http.Redirect + path.Clean + hexEscapeNonASCII (Go 1.24) validated by the correspondence on every run",
     "WHATWG same-origin rule as encoded in Model.Dest.same_origin and harness verifSameOrigin",
+    "WHATWG resolution of an observed Location header (special schemes, slash/backslash runs, dot segments) as encoded in harness c17Resolve / c17LocationAllowed and, for the external-URL dimension, Model.DestExt.under_ext (literal-prefix form, stricter)",
 ]
 
 # (prefix of the definitions printed by the case file, label, idx file, suffix of the model-oracle key)
@@ -83,6 +84,7 @@ def run(ctx):
                        "url.Parse success/failure enters the model as the parse_fails input computed by the real parser",
                        "r.URL.String() of the request (prompt flow) is an input computed by net/http's own request-line parser",
                        "whether a multipart field is part of r.Form (the handler parsed the form before FormValue or not) is net/http's decision: both outcomes are admitted by the channel correspondence",
+                       "URL-valued configuration knobs: only string fields of the base configuration that are empty in the test configuration are set (one per daemon, at most 12 in the quick tier); a knob the real loader refuses is counted, not reported",
                        "c17_logout: the user name of a session contains no control byte other than tab/CR/LF (whatever the password backend / identity provider admitted); c17_logout_ctl_refuted shows the hypothesis is needed"]
     return ctx.finish("bin/build-coq && coqc Audit/Obl/Cases files (see lib/core.py); go test -overlay TestVerif_C17", TRUSTED)
 
